@@ -242,6 +242,9 @@ func (fv *FuncVC) applyEffect(e *Effect, tag string) {
 
 func (fv *FuncVC) opaqueCall(key string, args []Val, ats []types.Type, rts []types.Type, tracked string, pos token.Pos) []Val {
 	tag := fmt.Sprintf("call%d", fv.callN)
+	fv.bindingEscape = false
+	synced := fv.syncCellsOut(args)
+	defer fv.syncCellsIn(synced)
 	idx := ""
 	if tracked != "" {
 		idx = fv.logAppend(tracked, args, ats)
